@@ -319,6 +319,15 @@ func Gen(w *bufio.Writer, seed uint64, tier string) {
 			fmt.Fprintf(w, "C09 transform %s %s %d\n", t[0], t[1], p)
 		}
 	}
+	// input through a pipe (relic sign -f -), sizes around the PGP transform's 10,000,000-byte limit: refusal or the whole input
+	for _, sz := range []int{0, 1, 4096, 65537, 9999999, 10000000, 10000001, 10004096} {
+		for _, fl := range []string{"-", "clearsign=true", "inline=true"} {
+			if sz > 100000 && fl == "inline=true" {
+				continue
+			}
+			fmt.Fprintf(w, "C09 pipe pgp %d %s\n", sz, fl)
+		}
+	}
 	// a front end that answers 503 at once and keeps draining the upload, then a healthy server
 	for k := 0; k < pick(2, 6); k++ {
 		fmt.Fprintf(w, "C09 xlinger %d %d %d\n", r.Pick(3000000, 5000000), r.Intn(1<<30), r.Pick(200, 500))
